@@ -6,6 +6,7 @@ CONSTANTS Acts,       \* subset of {"Create","Activate","Close","Service","Disco
           SvcKinds,   \* subset of {"Read","Browse","Write","CreateSub"}
           Creds,      \* subset of {"good","bad"}
           ExtraToks,  \* subset of {Forged, Null}
+          Warm,       \* TRUE: every history starts with CreateSession and a successful anonymous ActivateSession on connection 1
           MaxDepth
 VARIABLES depth
 DInit == Init /\ depth = 0
@@ -17,7 +18,8 @@ Gens(t, kind) == IF kind \in NonceKinds /\ t \in Slots THEN 0..sess[t].gen ELSE 
 
 DNext ==
   /\ depth < MaxDepth /\ depth' = depth + 1
-  /\ \/ "Create" \in Acts /\ \E c \in Conns : CreateSession(c)
+  /\ IF Warm /\ depth < 2 THEN (IF depth = 0 THEN CreateSession(1) ELSE ActivateSession(1, 1, "anon", "good", 0)) ELSE
+     \/ "Create" \in Acts /\ \E c \in Conns : CreateSession(c)
      \/ "Activate" \in Acts /\ \E c \in Conns, t \in Toks, k \in ActKinds, cr \in Creds : \E g \in Gens(t, k) :
           ActivateSession(c, t, k, cr, g)
      \/ "Close" \in Acts /\ \E c \in Conns, t \in Toks, d \in BOOLEAN : CloseSession(c, t, d)
